@@ -627,7 +627,18 @@ func (i *IRCServer) GetSessions() map[robust.Id]Session {
 	defer i.sessionsMu.RUnlock()
 	result := make(map[robust.Id]Session, len(i.sessions))
 	for id, session := range i.sessions {
-		result[id] = *session
+		// Copy the maps as well: the caller reads the result without holding
+		// sessionsMu, while JOIN/PART/INVITE keep modifying the originals.
+		cp := *session
+		cp.Channels = make(map[lcChan]bool, len(session.Channels))
+		for channel, v := range session.Channels {
+			cp.Channels[channel] = v
+		}
+		cp.invitedTo = make(map[lcChan]bool, len(session.invitedTo))
+		for channel, v := range session.invitedTo {
+			cp.invitedTo[channel] = v
+		}
+		result[id] = cp
 	}
 	return result
 }
